@@ -211,7 +211,6 @@ theorem pathP_complete (fuel : Nat) (ih : PathP c alt fuel) :
       exact ⟨h0.trans h1, fun x h => by simp only [Res.ok.injEq] at h; subst h; exact allCl_obj.2 (h2 fs rfl)⟩
     | fail => exact ⟨h0.trans h1, fun _ h => by cases h⟩
     | fuelOut => exact ⟨h0.trans h1, fun _ h => by cases h⟩
-  have herr : ∀ (r : Res PVal), r ≠ .ok (.deferred default) → True := fun _ _ => trivial
   have hfail : EvExt p st (st.addErr p dfr) ∧ ∀ x, (Res.fail : Res PVal) = .ok x → x.AllCl (Under p) :=
     ⟨.of_events_eq rfl, fun _ h => by cases h⟩
   have hnull : EvExt p st st ∧ ∀ x, (Res.ok (PVal.leaf .null) : Res PVal) = .ok x → x.AllCl (Under p) :=
@@ -477,7 +476,7 @@ def MSerial : List String → List Event → Prop
   | k :: ks, evs => ∃ b rest, evs = b ++ rest ∧ (∀ e ∈ b, evUnderTop k e = true) ∧ MSerial ks rest
 
 theorem mserial_nil_block (k : String) (ks : List String) (evs : List Event) (h : MSerial ks evs) : MSerial (k :: ks) evs :=
-  ⟨[], evs, rfl, fun _ h => by cases h, h⟩
+  ⟨[], evs, rfl, fun _ hm => absurd hm List.not_mem_nil, h⟩
 
 theorem mserial_all_nil : ∀ ks : List String, MSerial ks []
   | [] => rfl
@@ -543,7 +542,7 @@ theorem mRootMut_serial (c : Ctx) (alt : Alt) (dfuel : Nat) (rt : String) :
           | ok v' =>
             simp only
             obtain ⟨new, h1, h2⟩ := mRootMut_serial c alt dfuel rt fuel rest (acc ++ [(fp.key, v')]) st2
-            refine ⟨new ++ (d2 ++ d1), by rw [h1, e12, List.append_assoc], ?_⟩
+            refine ⟨new ++ (d2 ++ d1), by rw [h1, e12]; simp only [List.append_assoc], ?_⟩
             refine ⟨(d2 ++ d1).reverse, new.reverse, by simp, ?_, h2⟩
             intro e hm
             exact evUnderTop_of_prefix (u12 e (List.mem_reverse.1 hm))
